@@ -145,7 +145,8 @@ class _SourceReader(processing_utils.SourceReader):
         try:
             with test_case_file_path.open() as f:
                 return f.read()
-        except IOError as ex:
+        except (IOError, UnicodeDecodeError) as ex:
+            # UnicodeDecodeError: The contents of the file is not text
             error_info = processing.ErrorInfo(error_description.of_exception(ex))
             raise ProcessError(error_info)
 
